@@ -78,17 +78,17 @@ CHECKS = {
    "DESIGN.md §4 C14"),
  "C15": ("fault_enumeration",
    "enumerated exit-cause x phase x entry-point grid plus proptest-generated multi-connection cases (1..32 concurrent) against the WebSocket server, in-process over duplex streams and through the real accept loops; hook counters and registry lookups as oracle",
-   "For every exit cause (clean close, abrupt loss, text frame, unmasked frame, bad magic, trailing bytes, inline handler panic, connect-callback panic first/second, embedder cancellation, graceful-drain shutdown, failed handshakes) crossed with the connection phase (idle, inline handler running, off-reader handler parked, unread outbound backlog) and the entry point: the disconnect callback runs exactly once (never for a failed handshake), the peer and its alias resolve from connect hooks, handlers and just before the trigger and no longer afterwards, the connect-queued notifies precede the first response in order, and parked off-reader handlers observe cancellation.",
+   "For every exit cause (clean close, abrupt loss, text frame, unmasked frame, bad magic, trailing bytes, inline handler panic, connect-callback panic first/second, embedder cancellation, graceful-drain shutdown, failed handshakes) crossed with the connection phase (idle, inline handler running, off-reader handler parked, unread outbound backlog) and the entry point: the disconnect callback runs exactly once (never for a failed handshake), the peer and its alias resolve from connect hooks, handlers and just before the trigger and no longer afterwards, the connect-queued notifies precede the first response in order, and parked off-reader handlers observe cancellation. An embedder cancellation must end the connection also while the reader is parked on a full outbound queue and the client keeps not reading; cancellation before or around the connect callbacks leaves connect and disconnect callbacks paired (each exactly once).",
    "10 s watchdog; cooperative parked handlers; embedder cancel via serve_connection_with_cancel.",
    "DESIGN.md §4 C15"),
  "C16": ("exploration",
    "generated saturation scenarios against the in-process WebSocket server with gate-controlled handlers; exhaustive release orders x exit kinds for caps 1..3, random caps up to 16 and unlimited; saturation observed through the handlers' own signals",
-   "The in-handler gauge never exceeds the cap; a request at the cap is answered ResourceExhausted before any parked handler is released and its handler never runs; a notify at the cap never runs; inline requests are answered during saturation; every released handler's caller gets its own response (panic -> InternalError with its id); after all exits the full cap can be occupied again; the connection keeps answering; with and without a forwarding middleware.",
+   "The in-handler gauge never exceeds the cap; a request at the cap is answered ResourceExhausted before any parked handler is released and its handler never runs; a notify at the cap never runs; inline requests are answered during saturation; every released handler's caller gets its own response (panic -> InternalError with its id); after all exits the full cap can be occupied again and one more request is refused again (the cap did not grow); the connection keeps answering; with and without a forwarding middleware; outbound queue capacities default, 1..3 and cap.",
    "10 s watchdog for 'immediately'; a fresh request that overtakes the slot release may be told to retry (documented as retryable) and is retried.",
    "DESIGN.md §4 C16"),
  "C17": ("exploration",
    "size-targeted property-based generation (limit-2..limit+2, uniform, 2x) over seven outbound paths; byte-exact predicted frames as oracle; raw peer observes every message size",
-   "For limits 1 KiB..1 MiB (16 MiB thorough) and none, on inline response, off-reader response, handler-pushed notify, registry broadcast, proxy-forwarded response, client request and client notify: no observed binary message exceeds the limit, deliverable messages arrive byte-identical, an oversized response becomes an InternalError response with the same id, an oversized notify is dropped and reported through on_error, an oversized client message fails locally with MessageTooLarge, and a follow-up request on the same connection succeeds.",
+   "For limits 1 KiB..1 MiB (16 MiB thorough) and none, on inline response, off-reader response, handler-pushed notify, registry broadcast, proxy-forwarded response, client request and client notify: no observed binary message exceeds the limit, deliverable messages arrive byte-identical, an oversized response becomes an InternalError response with the same id, an oversized notify is dropped and reported through on_error, an oversized client message fails locally with MessageTooLarge, and a follow-up request on the same connection succeeds; response paths also with queries that fill almost the whole frame budget, the proxy path also with oversized upstream error replies.",
    "Limits >= 1 KiB (room for the error reply).",
    "DESIGN.md §4 C17"),
  "C18": ("exploration",
